@@ -4,6 +4,7 @@ import math
 import numpy as np
 from hypothesis import strategies as st
 
+from pbt.props.c03 import _spell
 from pbt.samples import call, raised, build, sample_spec, expand
 
 ID = 'C12'
@@ -37,7 +38,7 @@ def _case(draw):
     if draw(st.booleans()):
         spec['n'] = draw(st.integers(1, 6))
     spec['vmin'] = draw(st.sampled_from([0, 1, 1]))
-    form = draw(st.sampled_from(['absent', 'pos', 'name', 'list', 'list1']))
+    form = draw(st.sampled_from(['absent', 'pos', 'neg', 'name', 'list', 'list1']))
     if form == 'list':
         sel = draw(st.lists(st.integers(0, D - 1), min_size=1, max_size=D, unique=True))
     elif form == 'absent':
@@ -45,7 +46,7 @@ def _case(draw):
     else:
         sel = [draw(st.integers(0, D - 1))]
     return dict(spec=spec, container=draw(st.sampled_from(['raw', 'raw', 'rfi', 'mef'])), form=form, sel=sel,
-                spell=[draw(st.booleans()) for _ in sel])
+                spell=[draw(st.sampled_from(['name', 'pos', 'neg'])) for _ in sel])
 
 
 def strategy(tier):
@@ -145,10 +146,12 @@ def check(case, obs):
         ch_arg = None
     elif form == 'pos':
         ch_arg = sel[0]
+    elif form == 'neg':
+        ch_arg = sel[0] - D
     elif form == 'name':
         ch_arg = names[sel[0]]
     else:
-        ch_arg = [names[j] if sp else j for j, sp in zip(sel, case['spell'])]
+        ch_arg = [_spell(j, sp, names, False) for j, sp in zip(sel, case['spell'])]
     is_list = form in ('absent', 'list', 'list1')
     cols = [[row[j] for row in cells] for j in range(D)]
     refs = [reference(c) for c in cols]
@@ -222,7 +225,7 @@ def check(case, obs):
                           lambda: '%s of channel %d: got %r, definition %r (n=%d, dtype %s)' % (stat, j, g, r[stat], len(col), arr.dtype))
             # single-channel spellings agree with the list entry (same values; summation order may differ
             # between a strided column and a contiguous one, hence the floating type's rounding tolerance)
-            for single in (j, names[j]):
+            for single in (j, names[j], j - D):
                 gs = call(fn, x, single)
                 obs.claim('channel_form', not raised(gs) and np.ndim(gs) == 0 and _agree(gs, vals[i], etol, scale),
                           lambda: '%s(sample, %r) = %r but list entry is %r' % (stat, single, gs, vals[i]))
